@@ -153,8 +153,10 @@ def run_lean(ctx):
     r = subprocess.run(['bash', sh], capture_output=True, text=True, timeout=3600)
     dt = time.time() - t0
     ctx.proof['lean_s'] += dt
-    files = [l.split()[0] for l in r.stdout.splitlines() if l.strip().endswith('ok') or ' ok ' in l]
+    files = [l.split()[1] for l in r.stdout.splitlines() if l.startswith('OK') and len(l.split()) >= 2]
     ctx.proof['lean_files'] = sorted(set(ctx.proof['lean_files'] + files))
     if r.returncode != 0:
         raise RuntimeError('Lean lemma layer does not compile:\n' + r.stdout[-2000:] + r.stderr[-2000:])
+    if not files:
+        raise RuntimeError('Lean lemma layer: no file was checked')
     ctx.proof['by_backend']['lean-files'] = len(files)
